@@ -39,6 +39,17 @@ fn load(bytes: &[u8]) -> Obs {
   match r { Ok((acc, err)) => Obs { accepted: acc, panic: None, max_req, peak, err }, Err(p) => Obs { accepted: false, panic: Some(p), max_req, peak, err: None } }
 }
 
+/// the same file through the path-based entry point (load_program_from_file), written to a scratch file of this worker
+fn load_file(bytes: &[u8]) -> Obs {
+  let path = format!("{}/work/c07-{}.mecb", crate::corpus::verif_dir(), std::process::id());
+  if std::fs::write(&path, bytes).is_err() { return Obs { accepted: false, panic: None, max_req: 0, peak: 0, err: Some("scratch-write".into()) }; }
+  alloc::begin(1 << 30);
+  let r = guarded(|| match mech_core::load_program_from_file(&path) { Ok(p) => { let d = p.decode_const_entries(); (true, d.err().map(|e| e.kind_name())) } Err(e) => (false, Some(e.kind_name())) });
+  let (max_req, peak) = alloc::end();
+  let _ = std::fs::remove_file(&path);
+  match r { Ok((acc, err)) => Obs { accepted: acc, panic: None, max_req, peak, err }, Err(p) => Obs { accepted: false, panic: Some(p), max_req, peak, err: None } }
+}
+
 fn panic_site(p: &str) -> String {
   // "message @ file:line" -> file basename:line (value-free)
   let loc = p.rsplit(" @ ").next().unwrap_or("");
@@ -100,6 +111,15 @@ impl Prop for C07 {
       if let Some(p) = &o.panic { return Some(Outcome::violated(&format!("loader-panic:{}", panic_site(p)), format!("{} -> panic {}", witness(), p))); }
       if o.max_req > bound.max(64 << 20) + 64 * b.len() { return Some(Outcome::violated("unbounded-allocation", format!("{} -> single allocation request of {} bytes", witness(), o.max_req))); }
       if must_reject && o.accepted { return Some(Outcome::violated(&format!("damaged-file-accepted:{}", fam), witness())); }
+      // the path-based loader sees the same bytes: every 8th file of the structural families, every 64th of the exhaustive ones
+      if loads % (if matches!(fam, "bitflip" | "burst" | "truncate") { 64 } else { 8 }) == 1 {
+        let f = load_file(b);
+        if f.err.as_deref() == Some("scratch-write") { return None; }
+        if let Some(p) = &f.panic { return Some(Outcome::violated(&format!("file-loader-panic:{}", panic_site(p)), format!("load_program_from_file: {} -> panic {}", witness(), p))); }
+        if f.max_req > bound.max(64 << 20) + 64 * b.len() { return Some(Outcome::violated("unbounded-allocation", format!("load_program_from_file: {} -> single allocation request of {} bytes", witness(), f.max_req))); }
+        if must_reject && f.accepted { return Some(Outcome::violated(&format!("damaged-file-accepted-by-file-loader:{}", fam), witness())); }
+        if f.accepted != o.accepted { return Some(Outcome::violated("loaders-disagree", format!("{}: from_bytes {} but load_program_from_file {}", witness(), if o.accepted { "accepts" } else { "rejects" }, if f.accepted { "accepts" } else { "rejects" }))); }
+      }
       None
     };
     match fam {
